@@ -603,6 +603,12 @@ class Interp:
             obj = obj.info
         if isinstance(obj, ClassInfo) and attr == "__name__":
             return obj.name
+        if isinstance(obj, ClassInfo) and attr == "_ufl_typecode_":
+            return obj.name
+        if isinstance(obj, ClassInfo) and attr == "_ufl_handler_name_":
+            from .types import camel2underscore
+
+            return camel2underscore(obj.name)
         if isinstance(obj, ClassInfo):
             r = self.prog.lookup(obj, attr)
             if isinstance(r, FuncInfo):
